@@ -1400,6 +1400,10 @@ class Stage:
                 subst_to.append(ret.t0)
             elif is_equal(k, self.t):
                 subst_to.append(ret.t)
+            elif is_equal(k, self.DT):  # like t: resolved per grid point through the stage's own symbol
+                subst_to.append(ret.DT)
+            elif is_equal(k, self.DT_control):
+                subst_to.append(ret.DT_control)
             else:
                 subst_to.append(MX.sym(k.name(), k.sparsity()))
         # the expressions held by the placeholders (integrands, at_t0/at_tf arguments, ...) refer to the
